@@ -72,7 +72,7 @@ INNER = {
 OPS = (
     [("cb", k) for k in FIRE_VALUES]
     + [("cb_wait_inner",), ("fire_inner",)]
-    + [("eb", "ErrA"), ("eb", "ErrB")]
+    + [("eb", "ErrA"), ("eb", "ErrB"), ("eb", "ErrA_cleaned")]
     + [("addCallback", k) for k in CALLBACKS]
     + [("match", "no_result")]
     + [("match", "succeeded", k) for k in INNER]
@@ -178,8 +178,21 @@ class System:
             impl.inner.callback("from-inner")
             m.fire("ok", "from-inner")
         elif name == "eb":
-            d.errback({"ErrA": ErrA, "ErrB": ErrB}[op[1]]("boom"))
-            m.fire("err", op[1])
+            if op[1] == "ErrA_cleaned":
+                # a Failure whose traceback was replaced by Twisted's stand-in objects
+                # (cleanFailure(): after pickling, or to break reference cycles)
+                from twisted.python.failure import Failure
+
+                try:
+                    raise ErrA("boom")
+                except ErrA:
+                    f = Failure()
+                f.cleanFailure()
+                d.errback(f)
+                m.fire("err", "ErrA")
+            else:
+                d.errback({"ErrA": ErrA, "ErrB": ErrB}[op[1]]("boom"))
+                m.fire("err", op[1])
         elif name == "addCallback":
             d.addCallback(CALLBACKS[op[1]])
             m.apply_cb(op[1])
@@ -397,12 +410,24 @@ def run_bfs(res, depth, first_ops=None):
 SYNC_KINDS = (pg.RET, pg.FAIL, pg.ERROR, pg.SKIP, pg.XFAIL, pg.UXSUCCESS)
 
 
-def _wrap(fn):
+class AppDeferred(defer.Deferred):
+    """An application's own Deferred subclass (as DeferredList / gatherResults results are)."""
+
+
+def _wrap(fn, subclass=False):
     def wrapped(*a, **kw):
         try:
             r = fn(*a, **kw)
         except Exception:
+            if subclass:
+                d = AppDeferred()
+                d.errback(Failure())
+                return d
             return defer.fail(Failure())
+        if subclass:
+            d = AppDeferred()
+            d.callback(r)
+            return d
         return defer.succeed(r)
 
     return wrapped
@@ -418,8 +443,9 @@ def wrapped_class(config):
     base = pg.make_class(config)
 
     class WProg(base):
+        # (setUp and tearDown return plain Deferreds, the test method an instance of a subclass)
         setUp = _wrap(base.setUp)
-        test_it = _wrap(base.test_it)
+        test_it = _wrap(base.test_it, subclass=True)
         tearDown = _wrap(base.tearDown)
 
     _WCLASS[key] = WProg
